@@ -69,6 +69,8 @@ proof fn lemma_exit(dir: VxPath, s: Shards, fin: Shards, hashes: Set<MerkleHash>
         forall|p: VxPath| #[trigger] removed.contains(p) ==> exists|i: int| 0 <= i < s.len() && p == (#[trigger] s[i]).path && covered(s[i].shard_hash, fin),
         // (c) no input shard is dropped: each is returned or merged into a returned shard
         forall|i: int| 0 <= i < s.len() ==> covered((#[trigger] s[i]).shard_hash, fin),
+        // (e) the directory is consolidated: an input shard that is not (identical to) a returned shard is gone
+        forall|i: int| 0 <= i < s.len() ==> gone_or_returned(#[trigger] s[i], hashes, exists_),
 {
     assert forall|p: VxPath| #[trigger] removed.contains(p) implies exists|i: int| 0 <= i < s.len() && p == (#[trigger] s[i]).path && covered(s[i].shard_hash, fin) by {
         let i = choose|i: int| 0 <= i < s.len() && p == (#[trigger] s[i]).path;
@@ -133,6 +135,48 @@ proof fn lemma_remove_step(dir: VxPath, s: Shards, fin: Shards, hashes: Set<Merk
     }
 }
 
+// ---- before the loop: load the directory, order by modification time (R7 outline: the order is irrelevant to C10) -----
+uninterp spec fn sort_perm(s: Shards) -> Seq<int>;
+// ASSUMED std behaviour: `sort_unstable_by_key` permutes the vector
+#[verifier::external_body]
+fn vx_sort_by_mtime(v: &mut Vec<Arc<MDBShardFile>>)
+    ensures
+        final(v)@.len() == old(v)@.len(),
+        forall|i: int| 0 <= i < old(v)@.len() ==> 0 <= #[trigger] sort_perm(old(v)@)[i] < old(v)@.len() && final(v)@[i] == old(v)@[sort_perm(old(v)@)[i]],
+        forall|i: int, j: int| 0 <= i < j < old(v)@.len() ==> #[trigger] sort_perm(old(v)@)[i] != #[trigger] sort_perm(old(v)@)[j],
+{ unimplemented!() } // outlined expression: v.sort_unstable_by_key(|si| si.last_modified_time)
+proof fn lemma_perm_wf(dir: VxPath, a: Shards, b: Shards, exists_: Set<VxPath>)
+    requires loaded_wf(dir, a, exists_), b.len() == a.len(),
+        forall|i: int| 0 <= i < a.len() ==> 0 <= #[trigger] sort_perm(a)[i] < a.len() && b[i] == a[sort_perm(a)[i]],
+        forall|i: int, j: int| 0 <= i < j < a.len() ==> #[trigger] sort_perm(a)[i] != #[trigger] sort_perm(a)[j],
+    ensures loaded_wf(dir, b, exists_),
+{
+    assert forall|i: int, j: int| 0 <= i < j < b.len() implies (#[trigger] b[i]).shard_hash != (#[trigger] b[j]).shard_hash by {
+        let pi = sort_perm(a)[i]; let pj = sort_perm(a)[j];
+        assert(b[i] == a[pi] && b[j] == a[pj]);
+        if pi < pj { assert(a[pi].shard_hash != a[pj].shard_hash); } else { assert(pj < pi); assert(a[pj].shard_hash != a[pi].shard_hash); }
+    }
+    assert forall|i: int| 0 <= i < b.len() implies (#[trigger] b[i]).path == path_of(dir, b[i].shard_hash) && b[i].shard.size < 0x8000_0000_0000_0000 && exists_.contains(b[i].path) by {
+        let pi = sort_perm(a)[i]; assert(b[i] == a[pi]);
+    }
+}
+//@ extract mdb_shard/src/session_directory.rs region consolidate_shards_in_directory
+//@ from `let mut shards = MDBShardFile::load_all_valid`
+//@ to `let shards = shards;`
+//@ sig `fn load_sorted(session_directory: &VxPath, vx_fs: &VxFs) -> (res: Result<Vec<Arc<MDBShardFile>>>)`
+//@ epilogue `Ok(shards)`
+//@ subst `MDBShardFile::load_all_valid` => `vx_fs.load_all_valid` :: R11 shard I/O stub with ghost state
+//@ subst `shards.sort_unstable_by_key(|si| si.last_modified_time)` => `vx_sort_by_mtime(&mut shards)` :: R7 outline of the closure-keyed sort; assumed to permute the vector
+//@ contract
+    ensures
+        // the loop starts from existing, hash-named, pairwise different files; with lemma_init this is the invariant at cur = 0
+        res matches Ok(v) ==> /*@C10*/ loaded_wf(*session_directory, v@, vx_fs.exists@),
+//@ after `vx_sort_by_mtime(&mut shards);`
+    proof { lemma_perm_wf(*session_directory, pre_sort, shards@, vx_fs.exists@); }
+//@ before `vx_sort_by_mtime(&mut shards);`
+    let ghost pre_sort = shards@;
+//@ end
+
 // ---- one iteration of the `while cur_idx < shards.len()` loop (R8: the loop body, parameters = the variables it uses) --
 //@ extract mdb_shard/src/session_directory.rs region consolidate_shards_in_directory
 //@ block `while cur_idx < shards.len() {`
@@ -164,7 +208,7 @@ proof fn lemma_remove_step(dir: VxPath, s: Shards, fin: Shards, hashes: Set<Merk
         invariant
             s == shards@, cur == cur_idx, inputs_wf(dir, s), cur_idx < s.len(), target_max_size <= 0x8000_0000_0000_0000,
             cur_idx + 1 <= idx <= s.len(), cur_idx + 1 <= ub_idx <= s.len(),
-            current_size < 0x8000_0000_0000_0000,
+            current_size <= 0x8000_0000_0000_0000,
         decreases s.len() - idx,
 //@ loop 2
                     invariant
@@ -198,6 +242,10 @@ proof fn lemma_remove_step(dir: VxPath, s: Shards, fin: Shards, hashes: Set<Merk
                     }
                     assert forall|k: int| 0 <= k < finished_shards@.len() implies vx_fs.exists@.contains((#[trigger] finished_shards@[k]).path) && finished_shard_hashes@.contains(finished_shards@[k].shard_hash) && finished_shards@[k].path == path_of(dir, finished_shards@[k].shard_hash) by {
                         if k < fin0.len() { assert(finished_shards@[k] == fin0[k]); }
+                    }
+                    assert forall|i2: int| 0 <= i2 < cur implies gone_or_returned(#[trigger] s[i2], finished_shard_hashes@, vx_fs.exists@) by {
+                        assert(gone_or_returned(s[i2], hs0, ex0));
+                        axiom_path_of_injective(dir, f.shard_hash, s[i2].shard_hash);
                     }
                     assert(mid(dir, s, finished_shards@, finished_shard_hashes@, vx_fs.exists@, vx_fs.removed@, cur, ub_idx as int, removed0));
                 }
@@ -233,6 +281,40 @@ proof fn lemma_remove_step(dir: VxPath, s: Shards, fin: Shards, hashes: Set<Merk
                 }
             }
 //@ end
+
+// ---- composition check (HAND-WRITTEN control skeleton, not extracted): the function is `load_sorted`, then
+// `while cur_idx < shards.len() { consolidate_group }`, then `Ok(finished_shards)`.  It only shows that the contracts of the
+// two extracted regions chain (invariant initially, preserved, variant decreases) and give C10's clauses at exit; the two
+// `with_capacity` buffers are scratch (cleared before every use) and are passed fresh.
+fn vx_glue_consolidate(session_directory: &VxPath, target_max_size: u64, vx_fs: &mut VxFs) -> (res: Result<(Vec<Arc<MDBShardFile>>, Ghost<Shards>)>)
+    requires target_max_size <= 0x8000_0000_0000_0000, old(vx_fs).removed@ == Set::<VxPath>::empty(),
+    ensures res matches Ok((fin, inputs)) ==> {
+        let dir = *session_directory; let s = inputs@; let ex = final(vx_fs).exists@; let rm = final(vx_fs).removed@;
+        &&& loaded_wf(dir, s, old(vx_fs).exists@)
+        // (a) returns only shard files that exist, named by their content hash
+        &&& /*@C10*/ forall|k: int| 0 <= k < fin@.len() ==> ex.contains((#[trigger] fin@[k]).path) && fin@[k].path == path_of(dir, fin@[k].shard_hash)
+        // (b) deletes only input shards whose records are present in a returned shard
+        &&& /*@C10*/ forall|p: VxPath| #[trigger] rm.contains(p) ==> exists|i: int| 0 <= i < s.len() && p == (#[trigger] s[i]).path && covered(s[i].shard_hash, fin@)
+        // (c) every input shard is returned or merged into a returned shard
+        &&& /*@C10*/ forall|i: int| 0 <= i < s.len() ==> covered((#[trigger] s[i]).shard_hash, fin@)
+    },
+{
+    let shards = load_sorted(session_directory, vx_fs)?;
+    let mut finished_shards = Vec::<Arc<MDBShardFile>>::with_capacity(shards.len());
+    let mut finished_shard_hashes = HashSet::<MerkleHash>::with_capacity(shards.len());
+    let mut cur_idx = 0;
+    proof { lemma_init(*session_directory, shards@, finished_shard_hashes@, vx_fs.exists@); assert(finished_shards@ =~= Seq::empty()); }
+    while cur_idx < shards.len()
+        invariant
+            target_max_size <= 0x8000_0000_0000_0000, inputs_wf(*session_directory, shards@),
+            inv(*session_directory, shards@, finished_shards@, finished_shard_hashes@, vx_fs.exists@, vx_fs.removed@, cur_idx as int),
+        decreases shards@.len() - cur_idx,
+    {
+        cur_idx = consolidate_group(session_directory, target_max_size, &shards, &mut finished_shards, &mut finished_shard_hashes, Vec::new(), Vec::new(), Vec::new(), cur_idx, vx_fs)?;
+    }
+    proof { lemma_exit(*session_directory, shards@, finished_shards@, finished_shard_hashes@, vx_fs.exists@, vx_fs.removed@); }
+    Ok((finished_shards, Ghost(shards@)))
+}
 
 } // verus!
 fn main() {}
